@@ -158,6 +158,11 @@ func canon(s []span) ([]span, error) {
 			if !equalPrerelease(this.min, this.max) || !equalPrerelease(this.min, next.min) || !equalPrerelease(this.min, next.max) {
 				continue
 			}
+			// A prerelease bound admits prereleases with its numbers; it cannot be
+			// merged away unless the two elements are the same.
+			if len(this.min.pre) > 0 && (this.rank != next.rank || this.minOpen != next.minOpen || this.maxOpen != next.maxOpen || !this.min.equal(next.min) || !this.max.equal(next.max)) {
+				continue
+			}
 			// We'll process the element now, so on the outer loop, skip it.
 			merged[j] = true
 			if next.rank == empty {
